@@ -30,7 +30,7 @@ type c2Case struct {
 }
 
 var c2ErrorKinds = []string{
-	"error", "wraperror", "defererror", "syntax-openbrace", "syntax-straytoken", "syntax-string", "syntax-comment", "syntax-nul", "syntax-package",
+	"error", "wraperror", "defererror", "defererror-with-followup", "defererror-nested", "syntax-openbrace", "syntax-straytoken", "syntax-string", "syntax-comment", "syntax-nul", "syntax-package",
 	"syntax-lateimport", "syntax-closebrace", "syntax-stmt", "skip", "ignore", "wrapskip", "wrapignore", "panic-free-nothing",
 }
 
@@ -124,6 +124,9 @@ func (c *c2Case) points(prev modspec.Tree) []c2Point {
 				if (pos+c.Death)%8 == 4 {
 					kinds = append(kinds, "kill")
 				}
+				if (pos+c.Death)%8 == 6 {
+					kinds = append(kinds, "die-by-panic")
+				}
 				pos++
 				for _, kind := range kinds {
 					pt := base
@@ -151,9 +154,19 @@ func (c *c2Case) faultScripts(pt c2Point) []*script.Script {
 			act.Render = append(append([]script.Piece{}, act.Render...), script.Piece{Kind: "block", Text: c2Syntax[pt.Kind]})
 		case pt.Kind == "defererror":
 			act.Defers = []script.DeferAction{{Err: "error"}}
+		case pt.Kind == "defererror-with-followup":
+			// an earlier callback queues a follow-up (which succeeds) before a later callback fails
+			ok := []script.Piece{{Kind: "block", Text: "\nvar _$G_$T_followup = 0\n"}}
+			act.Defers = []script.DeferAction{{Then: []script.DeferAction{{Render: ok}}}, {Err: "error"}, {Render: ok}}
+		case pt.Kind == "defererror-nested":
+			// the failing callback is itself registered from inside another callback, and more callbacks follow it
+			ok := []script.Piece{{Kind: "block", Text: "\nvar _$G_$T_after = 0\n"}}
+			act.Defers = []script.DeferAction{{Then: []script.DeferAction{{Err: "error"}, {Render: ok}}}, {Render: ok}}
 		case pt.Kind == "panic-free-nothing":
 			act.Render = nil
 			act.Defers = nil
+		case pt.Kind == "die-by-panic":
+			act.Err = "panic"
 		default:
 			act.Err = pt.Kind
 		}
@@ -247,8 +260,8 @@ func oracleC02(c c2Case) error {
 		scripts := c.faultScripts(pt)
 		prevFile := path.Join(pt.Dir, "zz_generated."+pt.Gen+".go")
 		switch pt.Kind {
-		case "exit", "kill":
-			_, exit, stderr := script.RunChild(script.RunSpec{Dir: dir, Entrypoints: ent, All: true, Globals: globals, Base: "zz_generated", Scripts: scripts}, os.TempDir())
+		case "exit", "kill", "die-by-panic":
+			_, exit, stderr := script.RunChild(script.RunSpec{Dir: dir, Entrypoints: ent, All: true, Globals: globals, Base: "zz_generated", Scripts: scripts, NoRecover: true}, os.TempDir())
 			if exit == 0 {
 				return fmt.Errorf("%s: the process was supposed to die inside GenerateType but exited 0", where)
 			}
@@ -325,9 +338,9 @@ func TestC02(t *testing.T) {
 		Level: "fault_enumeration",
 		Rule: "layouts: modules of 2-4 packages with previous outputs and a gengo.sum left by a successful run, sources then edited; for each layout EVERY (generator, " +
 			"package, type) position in processing order is enumerated and gets fault kinds round-robin from: plain error, wrapped error, error from a Defer " +
-			"callback, error from GenerateAliasType (alias positions), 9 unparseable renderings (open brace, stray token, unterminated string/comment, NUL, second " +
+			"callback (flat, after an earlier callback queued a follow-up, and from a callback that was itself registered by a callback), error from GenerateAliasType (alias positions), 9 unparseable renderings (open brace, stray token, unterminated string/comment, NUL, second " +
 			"package clause, late import, stray '}', statement at top level), ErrSkip/ErrIgnore plain and wrapped (must not fail), and process death by os.Exit(3) / " +
-			"SIGKILL inside GenerateType in a child process; evaluations = layouts + fault points; a fault point is non-trivial when it lands after a successful " +
+			"SIGKILL / an unrecovered panic inside GenerateType in a child process; evaluations = layouts + fault points; a fault point is non-trivial when it lands after a successful " +
 			"GenerateType, or in a package that is not the first, or there is a previous output file to protect; distinct by (layout-independent) JSON of the point",
 		Assumptions: []string{
 			"faults are injected at generator-visible points only (no hooks inside gengo's write loop, no I/O errors)",
